@@ -668,7 +668,7 @@ func Run(cfg hx.Config) error {
 	hs.s.Concurrency, hs.s.SchedRnd, hs.s.FaultRate = 3, rnd.Fork(), 9
 
 	nHist := cfg.N(1200, 8000)
-	nSched := cfg.N(60, 600)
+	nSched := cfg.N(40, 600)
 	for i := 0; i < nHist+nSched && !r.Stop() && !h.s.Lost && !hs.s.Lost; i++ {
 		if i == nHist {
 			h = hs
@@ -747,7 +747,7 @@ func Run(cfg hx.Config) error {
 	// concurrent Index calls on one deployment (direct checks only)
 	q := ctrl.NewSession(r)
 	q.Quiet = true
-	for i, n := 0, cfg.N(250, 4000); i < n && !r.Stop() && !q.Lost; i++ {
+	for i, n := 0, cfg.N(150, 4000); i < n && !r.Stop() && !q.Lost; i++ {
 		concurrent(r, q, rnd)
 	}
 	r.Notes["store"] = "in-memory indexer.Store (go/internal/memstore) following datastore/postgres method by method; every method atomic"
